@@ -62,6 +62,41 @@ def run(chk):
     if aab:
         rule_outer(chk, aab, pd)
     rule_params(chk)
+    rule_source(chk)
+
+
+def rule_source(chk):
+    """Explicit placement written in the source reaches the allocator unchanged: the typer builds the LanguageBinding of
+    a global / cbuffer with `set` = the register annotation's `space` itself and `index` = Some(<the annotation's slot
+    index>) or None when no slot is written (value-origin trace, no transformer on the way)."""
+    import thirflow as TF
+    f = chk.facts
+    n = 0
+    for name in ("parse_rootdefinition_globalvariable", "parse_rootdefinition_constantbuffer"):
+        fn = chk.anchor("C06.anchor/" + name, f.fn(name, "rssl_typer"), name)
+        if not fn:
+            continue
+        tr = TF.Tracer(f, max_depth=1)
+        ctors = [a for a in F.exprs(fn["thir"], "Adt") if short(a["adt"]) == "LanguageBinding" and a["fields"]]
+        chk.ob("C06.source/%s/site" % name, len(ctors) == 1, "%d construction(s) of LanguageBinding from a register annotation" % len(ctors), where(fn), trivial=len(ctors) == 1)
+        for a in ctors:
+            fl = {str(x["f"]): x["e"] for x in a["fields"]}
+            for field, suffix, inner in (("set", (("f", "space"),), ()), ("index", (("f", "slot"), ("v", "Option", "Some", "0"), ("f", "index")), (("v", "Option", "Some", "0"),))):
+                if field not in fl:
+                    chk.ob("C06.source/%s/%s" % (name, field), False, "LanguageBinding.%s is not set from the annotation" % field, where(fn, a))
+                    continue
+                org = tr.trace(fn, fl[field], inner)
+                ok = bool(org) and all(o[0] == "param" and any(s[:3] == ("v", "LocationAnnotation", "Register") for s in o[3]) and
+                                       tuple(s for s in o[3] if s[:3] != ("v", "LocationAnnotation", "Register"))[-len(suffix):] == suffix and
+                                       o[3][[i for i, s in enumerate(o[3]) if s[:3] == ("v", "LocationAnnotation", "Register")][0] + 1:] == suffix
+                                       for o in org)
+                n += 1
+                chk.ob("C06.source/%s/%s" % (name, field), ok,
+                       "LanguageBinding.%s is the register annotation's %s, unchanged" % (field, "space" if field == "set" else "slot index") if ok else
+                       "LanguageBinding.%s is not the register annotation's own %s (%s): an explicit register space / slot written in the source is altered before slot assignment, so the resource is placed in another group or slot"
+                       % (field, "space" if field == "set" else "slot index", sorted(TF.describe(o) for o in org)), where(fn, a),
+                       sample={"fn": name, "field": field, "origins": sorted(TF.describe(o) for o in org)})
+    chk.floor("C06.floor/source-fields", n, 4, "LanguageBinding fields traced to the annotation", "rssl_typer")
 
 
 def let_of(body, var_id):
